@@ -27,8 +27,9 @@ PROP = 'C18'
 WL_DIR = os.path.join(core.VERIF, 'workloads')
 WL_FILES = {'main': 'c18_main.py', 'alt': 'c18_alt.py', 'cap': 'c18_captured.py', 'fac': 'c18_factory.py', 'lib': 'c18_lib.py'}
 CTX_NAMES = [None, 'FP64', 'FP32', 'FP16', 'RTZ16', 'RTP16', 'RTN32', 'RAZ8', 'MP5', 'FX4', 'REAL', 'FXF', 'MP40', 'FXM']
-HOT = frozenset(['eval', 'compile', 'to_value', 'from_value', '_mpfr_call_with_prec', '__iter__', 'mpfr_call',
-                 '_visit_context', '_normalize', 'register', '_func_ctx', '_call_fpy', '_eval_call', 'round'])
+HOT = frozenset(['eval', 'compile', '_compile', 'to_value', 'from_value', '_mpfr_call_with_prec', '__iter__', 'mpfr_call',
+                 '_visit_context', '_normalize', 'register', '_func_ctx', '_call_fpy', '_eval_call', 'round',
+                 '_default_function_call', 'make_namespace', '__call__'])
 OPCODE_FILES = ('interpret/byte.py', 'number/gmputils.py', 'number/engine/engine.py', 'fpy2/ops.py',
                 'interpret/value.py', 'interpret/interpreter.py')
 
@@ -98,6 +99,8 @@ NUMS = [
     ['Fr', '1/3', 'FP16'], ['Fr', '2/3', 'FP32'], ['Fr', '10/3', 'FP64'], ['Fr', '70000', 'FP16'],
     ['R', '5/4'], ['R', '-3/8'], ['R', '6'],
 ]
+BIG = [['F', str(10 ** 10)], ['F', str(2 ** 70)], ['f', (1e300).hex()], ['Fr', '1e30', 'FP64'], ['F', '-' + str(10 ** 12)],
+       ['f', (65520.0).hex()], ['F', '3'], ['i', 70000], ['q', '1/3']]
 SPECIALS = [['F', 'nan'], ['F', 'inf'], ['F', '-inf'], ['F', '-0'], ['f', float('nan').hex()], ['f', float('inf').hex()]]
 
 
@@ -159,6 +162,12 @@ def gen_list(r: random.Random, lo: int, hi: int, ids: list, allow_special=False)
 def gen_arg(r: random.Random, kind: str, ids: list):
     if kind in ('num', 'nz', 'pos', 'num_small', 'cnt', 'idx', 'any_num'):
         return gen_num(r, kind)
+    if kind == 'big':
+        return r.choice(BIG)
+    if kind == 'biglist':
+        lid = len(ids)
+        ids.append(lid)
+        return ['L', lid, [r.choice(BIG + NUMS[:6]) for _ in range(r.randint(2, 4))]]
     if kind == 'list1+':
         return gen_list(r, 1, 4, ids)
     if kind == 'list2+':
@@ -249,7 +258,7 @@ def catalogue(ns: str, name: str, sig: list[str]) -> list:
     k = (ns, name)
     if k not in _CATALOGUE:
         rr = random.Random(f'catalogue:{ns}:{name}')
-        _CATALOGUE[k] = [[_coerce(a, _MODES[e % len(_MODES)]) if s_ not in ('cnt', 'idx') else a
+        _CATALOGUE[k] = [[_coerce(a, _MODES[e % len(_MODES)]) if s_ not in ('cnt', 'idx', 'big', 'biglist') else a
                           for a, s_ in zip(gen_args(rr, sig), sig)] for e in range(CATALOGUE)]
     return _CATALOGUE[k]
 
@@ -271,6 +280,7 @@ def gen_run(seed: int, tier: str, sub: str) -> dict:
         'mean_quantum': r.choice([3, 10, 40, 150, 600, 2500]),
         'opcode': r.random() < 0.3,
         'hot_bias': r.choice([0.0, 0.2, 0.6]),
+        'starve': r.choice([0.0, 0.0, 0.3, 0.7]),
         'nops': r.randint(3, 10 if tier == 'quick' else 14),
         'faults': sub == 'faults',
     }
@@ -294,12 +304,32 @@ def gen_run(seed: int, tier: str, sub: str) -> dict:
     # it keeps the number of fresh-process references per run small)
     call_pool = []
     cfg['sweep'] = sub != 'captured' and r.random() < 0.45
-    if cfg['sweep']:
+    cfg['stampede'] = sub != 'captured' and not cfg['sweep'] and r.random() < 0.3
+    if cfg['stampede']:
+        # cold stampede: every thread's first operations are calls of the same one or two functions
+        # through the shared default interpreter, finely interleaved -- the first-use paths (compile,
+        # cache fill, lazily built tables) are where two callers meet
+        cfg['nthreads'] = nthreads = max(2, nthreads)
+        cfg['mean_quantum'] = r.choice([1, 2, 3, 6])
+        cfg['starve'] = r.choice([0.3, 0.7, 1.0])
+        sns = 'lib' if r.random() < 0.2 else 'main'
+        amb = [n for n in meta[sns].get('AMBIENT', []) if n in meta[sns]['SIG']]
+        names = r.sample(amb, r.randint(1, 2))
+        if sns == 'main' and r.random() < 0.5:
+            names = [r.choice(meta['main']['PINNED'])] + names[:1]
+        for name in names:
+            args = catalogue(sns, name, meta[sns]['SIG'][name])[r.randrange(4)]
+            for cname in r.sample(CTX_NAMES, 2):
+                call_pool.append((sns, name, args, cname))
+    elif cfg['sweep']:
         # context sweep: one or two functions that compute under the caller's context, the same
         # arguments, several contexts -- "the same function under another context" as history
         sns = 'lib' if r.random() < 0.3 else 'main'
         amb = [n for n in meta[sns].get('AMBIENT', []) if n in meta[sns]['SIG']]
-        for name in r.sample(amb, r.randint(1, 2)):
+        names = r.sample(amb, r.randint(1, 2))
+        if sns == 'main' and r.random() < 0.35:
+            names = [r.choice(meta['main']['PINNED'])] + names[:1]
+        for name in names:
             args = catalogue(sns, name, meta[sns]['SIG'][name])[r.randrange(4)]
             for cname in r.sample(CTX_NAMES, r.randint(3, 5)):
                 call_pool.append((sns, name, args, cname))
@@ -326,7 +356,9 @@ def gen_run(seed: int, tier: str, sub: str) -> dict:
         ns_map = {ns: ns for ns in meta}      # current namespace alias of this thread
         for j in range(cfg['nops']):
             x = r.random()
-            if fault_kinds and x < 0.25:
+            if cfg.get('stampede') and j < 3:
+                x = 0.3          # a plain call
+            elif fault_kinds and x < 0.25:
                 k = r.choice(fault_kinds)
                 if k == 'engine':
                     ops.append({'op': 'engine', 'seed': r.randrange(1 << 30), 'rate': r.choice([0.2, 0.5, 0.9])})
@@ -375,9 +407,11 @@ def gen_run(seed: int, tier: str, sub: str) -> dict:
             cancel = None
             if 'cancel' in fault_kinds and r.random() < 0.25:
                 cancel = int(2 ** r.uniform(0, 14.5))
+            rt = r.choice(['default', 'default', 'own', 'fresh'])
+            if cfg.get('stampede') and j < 3:
+                rt, cancel = 'default', None
             ops.append({'op': 'call', 'fn': [ns_map[ns], name], 'key': {'root': [ns, name], 'chain': []},
-                        'args': cargs, 'ctx': cctx,
-                        'rt': r.choice(['default', 'default', 'own', 'fresh']), 'cancel': cancel})
+                        'args': cargs, 'ctx': cctx, 'rt': rt, 'cancel': cancel})
         threads.append(ops)
     return {'seed': seed, 'cfg': cfg, 'threads': threads, 'schedule': None, 'sched_seed': r.randrange(1 << 62)}
 
@@ -412,6 +446,17 @@ def _outcome_of_call(fn, args, ctx, how: str, own_rt):
     return ['ok', V.denote(res)], res
 
 
+def _publish_probe() -> int:
+    """Changes whenever something is published to process-wide evaluation state: an entry in the
+    default interpreter's compiled-function cache, a registered engine."""
+    from fpy2.interpret.interpreter import _default_interpreter as rt   # noqa: PLC2701 (read-only peek)
+    import fpy2.interpret.interpreter as ii
+    from fpy2.number.engine.engine import ENGINES
+    rt = ii._default_interpreter
+    n = len(getattr(rt, 'func_cache', ())) if rt is not None else 0
+    return n * 1000 + len(ENGINES._items) + (id(rt) & 0xffff) * 1000000
+
+
 def execute_run(run: dict) -> dict:
     """Runs in the forked child.  Returns the recorded history and scheduler statistics."""
     import fpy2 as fp
@@ -430,7 +475,8 @@ def execute_run(run: dict) -> dict:
         trace_prefixes=(os.path.join(core.REPO, 'fpy2') + os.sep, WL_DIR + os.sep),
         mean_quantum=cfg['mean_quantum'],
         opcode_files=OPCODE_FILES if cfg['opcode'] else (),
-        hot_names=HOT, hot_bias=cfg['hot_bias'],
+        hot_names=HOT, hot_bias=cfg['hot_bias'], starve=cfg.get('starve', 0.0),
+        publish_probe=_publish_probe if cfg.get('starve', 0.0) else None,
         schedule=run.get('schedule'),
         max_steps=cfg.get('max_steps', 3_000_000),
     )
@@ -531,7 +577,15 @@ def execute_run(run: dict) -> dict:
                 elif kind == 'engine':
                     eng = make_exact_engine(op['seed'], op['rate'])
                     engines.append(eng)
-                    register_engine(eng, priority=1000 + len(engines))
+                    # registration itself runs without pre-emption: two callers *registering* at the
+                    # same moment is not an evaluation (EngineList.register sorts with a Python key
+                    # function and is not reentrant: "list modified during sort"); what is under test
+                    # is evaluating while the registry changes under the evaluators' feet
+                    sc.atomic[i] = True
+                    try:
+                        register_engine(eng, priority=1000 + len(engines))
+                    finally:
+                        sc.atomic[i] = False
                     rec['outcome'] = ['ok']
                 elif kind == 'gc':
                     gc.collect()
@@ -565,6 +619,7 @@ def execute_run(run: dict) -> dict:
         'engine_asked': sum(e.stats['asked'] for e in engines),
         'wall': time.monotonic() - t0,
         'items': sched.items,
+        'holds': sched.holds,
     }
 
 
@@ -993,6 +1048,18 @@ def _main(tier: str, total: float, parts: list) -> int:
     code = core.report(PROP, violations, known, herrs, minimise=minimise)
     c = st.counters
     steps = c.get('steps', {}).get('total', 0)
+    # reach: which pairs of critical regions were seen with one thread parked in X while the baton
+    # went to a thread parked in Y (file:function at the hand-off), and which never were
+    regions = ['byte.py:eval', 'byte.py:compile', 'value.py:to_value', 'value.py:from_value', 'byte.py:_call_fpy',
+               'byte.py:_eval_call', 'gmputils.py:_mpfr_call_with_prec', 'gmputils.py:mpfr_call', 'engine.py:__iter__',
+               'engine.py:register', 'ops.py:_normalize', 'interpreter.py:_func_ctx', 'interpreter.py:_default_function_call']
+    seen_pairs = set()
+    for p in st.sets.get('pairs', ()):
+        a, _, b = p.partition('|')
+        if a in regions and b in regions:
+            seen_pairs.add(tuple(sorted((a, b))))
+    all_pairs = {tuple(sorted((a, b))) for a in regions for b in regions}
+    never = sorted(all_pairs - seen_pairs)
     coverage = {
         'evaluations': runs,
         'distinct_nontrivial': len(st.sets.get('distinct', ())),
@@ -1014,6 +1081,8 @@ def _main(tier: str, total: float, parts: list) -> int:
         'interleavings_distinct': len(st.sets.get('interleavings', ())),
         'history_shapes_distinct': len(st.sets.get('history_shapes', ())),
         'handoff_location_pairs': len(st.sets.get('pairs', ())),
+        'critical_region_pairs': {'regions': regions, 'reached': len(seen_pairs), 'of': len(all_pairs),
+                                  'never_reached': [f'{a} || {b}' for a, b in never][:60]},
         'undecided': dict(c.get('undecided', {})) | dict(c.get('undecided_runs', {})),
         'probes': dict(c.get('probes', {})),
         'components': {
